@@ -11,6 +11,21 @@ CLAIMED = {
          'Every text of the bounded spaces is compiled by the real compiler at O0..O2 with and without -g; the oracle is totality (module+listing, or Syntax/CompileError with a position inside the text, within a time limit). Complete for the stated bounds; nothing claimed above them.',
          'Trusts the per-line parse memo (conformance-checked) and the 10 s per-compile time limit as the meaning of "terminates".',
          'DESIGN.md section 4, C06'),
+ 'C08': ('exploration',
+         'exhaustive bounded enumeration of programs (all block-shape nestings up to depth 2 with empty and non-empty bodies, plus the repository corpus) compiled with and without -g at O0..O2 and run on the real VM; differential oracle',
+         'For every program of the bounded families the -g and no -g builds must agree on the verdict, on sections 1-3 byte for byte and on the device trace and outcome under a scripted environment (programs executing RESUME / RESUME NEXT exempt from the run comparison, as the property allows). Complete for the stated bounds.',
+         'Differential only: says nothing about whether both builds are right (C01) and nothing above the nesting bound.',
+         'DESIGN.md section 4, C08'),
+ 'C12': ('model_checking',
+         'explicit-state breadth-first search over debugger command histories (step, next, stepi, nexti, continue, break L, delbr L) with state hashing, every transition a real Cmd.onecmd() on the real VM; oracle = the free run of the same module',
+         'All command histories up to length 4 (quick) / 6 (thorough) over the full command alphabet on 19 debuggee programs at O0 and O2 are executed on the real debugger; every stop must be a state of the free run (transparency), and the per-command stop rules of the property are evaluated on every transition. States are deduplicated by a structural hash of VM state + breakpoints + finished flag.',
+         'Bounded by the debuggee set and history length; statement attribution is taken from the debug map (C11). Three genuine defects are carried in the findings ledger.',
+         'DESIGN.md section 4, C12'),
+ 'C17': ('exploration',
+         'exhaustive bounded enumeration of PRINT item/separator sequences (up to length 5 quick, 6-7 thorough, 11 item values x 2 separators; 4 ways of computing an item x 5 statement positions x 6 configurations on a sub-bound) compiled and run on the real VM against a layout reference model',
+         'Every grammatical element sequence below the bound is compiled as a PRINT statement, executed, and the text given to the terminal compared with a 20-line model of the property statement (number text + blank, strings verbatim, 14-column zones, line end rule).',
+         'Item values are a boundary alphabet (zone widths 13/14/15/30, empty string, every numeric type), not all values; number-to-text itself is C16.',
+         'DESIGN.md section 4, C17'),
 }
 NA_REASON = 'check not built yet in this session (planned, see DESIGN.md section 4); not claimed until it exists and is silent on the unchanged tree'
 
